@@ -57,6 +57,9 @@ class CiderGrids(Grids):
 
     def __init__(self, mol, lmax=CIDER_DEFAULT_LMAX):
         super(CiderGrids, self).__init__(mol)
+        if lmax < 1:
+            # the indexer takes the grid directions from the l=1 harmonics
+            raise ValueError("lmax must be at least 1")
         self.lmax = lmax
         self.nlm = (lmax + 1) * (lmax + 1)
         self.grids_indexer = None
@@ -93,7 +96,12 @@ class CiderGrids(Grids):
             rad_tab,
             dr_tab,
         ) = gen_atomic_grids_cider(
-            mol, atom_grid, self.radi_method, level, prune, **kwargs
+            mol,
+            atom_grid,
+            self.radi_method,
+            level,
+            prune,
+            **dict({"full_lmax": self.lmax}, **kwargs)
         )
         if build_indexer:
             self.grids_indexer = AtomicGridsIndexer.from_tabs(
